@@ -19,13 +19,15 @@ class C17(core.Check):
     design_ref = "DESIGN.md §5 C17"
     technique = ("Lean 4: model of parseChunk in a loop; round-trip theorem over an explicit encoder for every body, chunk division, extension list and trailer list; "
                  "rejection theorem for every size token that is not plain hex; correspondence vs httping.parseChunk / packChunk; decode-of-encode oracle on the real code")
-    level_text = ("Proved for all inputs: hex_roundtrip (all n), bad_size_rejected (every size line whose size token is not 1*HEX after white-space stripping is an error, "
-                  "never a number), good_size_value (a plain hex token is read as its value), chunked_roundtrip (decode (encode chunks exts trailers) = chunks, trailers for every "
-                  "list of non-empty chunks with arbitrary bytes incl. CR/LF, every extension text without CR/LF, every trailer list with distinct case-insensitive names within the "
-                  "header limits), chunk_fragmentation_independent.  Tied to the code by the correspondence run; packChunk by the oracle (parseChunk . packChunk).")
+    level_text = ("Proved for all inputs: hex_roundtrip (all n), chunked_roundtrip (decode (encode chunks exts trailers ++ tail) = exactly those chunks with their sizes, the trailers and "
+                  "tail, for every list of non-empty chunks with arbitrary bytes incl. CR/LF, every extension text without CR that is empty or starts with ';', every trailer list with "
+                  "CR/LF/colon-free names and CR/LF-free values within the header limits), decoded_body, decoded_trailers (names distinct ignoring case come back as written), "
+                  "bad_size_rejected + bad_size_never_a_chunk (every size line whose token is not 1*HEX after white-space stripping is the error, no chunk is produced, never another "
+                  "number), good_size_value, named_bad_sizes (-5 +5 0x5 1_0 empty blank superscript-two), chunk_fragmentation_independent.  Tied to the code by the correspondence run; "
+                  "packChunk by the oracle (parseChunk of packChunk output).")
     level_note = "Trusted: Lean kernel; translator (hexDigits / bytesSpace probes, MAX_* constants); sampled correspondence."
     quick_n = 900
-    thorough_n = 15000
+    thorough_n = 40000
     rule = ("cases: (enc) body with CR/LF-heavy bytes x chunk sizes x per-chunk extension text x trailers, decoded by parseChunk under a seeded partition; "
             "(chunks) a table of malformed size tokens (sign, 0x, _, unicode digits, blanks, empty) and random near-hex tokens with/without extensions, and mutated encodings; "
             "(pack) packChunk output for random payloads; non-trivial = at least one chunk or an error decided; distinct by request line")
@@ -78,7 +80,8 @@ class C17(core.Check):
         alpha = b"05aAfFgx_+- "
         cs = [("chunks", bytes([a, b]) + b"\r\nabcdefghijklmnop\r\n0\r\n\r\n", ()) for a in alpha for b in alpha]
         cs += [("chunks", bytes([a]) + b"\r\nabcdefghijklmnop\r\n0\r\n\r\n", ()) for a in range(256)]
-        return cs, "every 1-byte size token and every 2-byte size token over the alphabet 05aAfFgx_+-<space>"
+        cs += [("chunks", b"1" + bytes([c]) + b";" + bytes([c]) + b"a" + bytes([c]) + b"=" + bytes([c]) + b"b" + bytes([c]) + b"\r\nX\r\n0\r\n\r\n", ()) for c in range(256) if c not in (10, 13)]
+        return cs, "every 1-byte size token, every 2-byte size token over the alphabet 05aAfFgx_+-<space>, every byte value around size / extension name / value"
 
     def request(self, case):
         return hp.request_of(case)
